@@ -7,54 +7,54 @@ namespace RaftWal.Fault.B
 open RaftWal.Crash
 
 theorem finv_call_of_store_delTail
-    (hs : ∀ p, FInvS p → ∀ first es seals, OkV (view p) (.store first es seals) → ∀ k wf,
-      FInvS (runOp p (.store first es seals) k wf).1)
-    (ht : ∀ p, FInvS p → ∀ newMax, OkV (view p) (.delTail newMax) → ∀ k wf,
-      FInvS (runOp p (.delTail newMax) k wf).1) :
+    (hs : ∀ p, FInvS p → ∀ first es seals, OkV (view p) (.store first es seals) → ∀ pl,
+      FInvS (runOp p (.store first es seals) pl).1)
+    (ht : ∀ p, FInvS p → ∀ newMax, OkV (view p) (.delTail newMax) → ∀ pl,
+      FInvS (runOp p (.delTail newMax) pl).1) :
     finv_call_stmt := by
-  intro p hi op hok k wf
+  intro p hi op hok pl
   cases op with
-  | store first es seals => exact hs p hi first es seals hok k wf
-  | delHead newMin => exact finvS_call_delHead p hi newMin hok k wf
-  | delTail newMax => exact ht p hi newMax hok k wf
-  | set key val => exact finvS_call_set p hi key val hok k wf
+  | store first es seals => exact hs p hi first es seals hok pl
+  | delHead newMin => exact finvS_call_delHead p hi newMin hok pl
+  | delTail newMax => exact ht p hi newMax hok pl
+  | set key val => exact finvS_call_set p hi key val hok pl
 
 theorem call_view_of_store_delTail
-    (hs : ∀ p, FInv p → ∀ first es seals, OkV (view p) (.store first es seals) → ∀ k wf,
-      view (runOp p (.store first es seals) k wf).1 =
-        if (runOp p (.store first es seals) k wf).2 then specApply (view p) (.store first es seals) else view p)
-    (ht : ∀ p, FInv p → ∀ newMax, OkV (view p) (.delTail newMax) → ∀ k wf,
-      view (runOp p (.delTail newMax) k wf).1 =
-        if (runOp p (.delTail newMax) k wf).2 then specApply (view p) (.delTail newMax) else view p) :
+    (hs : ∀ p, FInv p → ∀ first es seals, OkV (view p) (.store first es seals) → ∀ pl,
+      view (runOp p (.store first es seals) pl).1 =
+        if (runOp p (.store first es seals) pl).2 then specApply (view p) (.store first es seals) else view p)
+    (ht : ∀ p, FInv p → ∀ newMax, OkV (view p) (.delTail newMax) → ∀ pl,
+      view (runOp p (.delTail newMax) pl).1 =
+        if (runOp p (.delTail newMax) pl).2 then specApply (view p) (.delTail newMax) else view p) :
     call_view_stmt := by
-  intro p hi op hok k wf
+  intro p hi op hok pl
   cases op with
-  | store first es seals => exact hs p hi first es seals hok k wf
-  | delHead newMin => exact call_view_delHead p hi newMin hok k wf
-  | delTail newMax => exact ht p hi newMax hok k wf
-  | set key val => exact call_view_set p hi key val hok k wf
+  | store first es seals => exact hs p hi first es seals hok pl
+  | delHead newMin => exact call_view_delHead p hi newMin hok pl
+  | delTail newMax => exact ht p hi newMax hok pl
+  | set key val => exact call_view_set p hi key val hok pl
 
 theorem call_disklog_of_store_delTail
-    (hs : ∀ p, FInv p → ∀ first es seals, OkV (view p) (.store first es seals) → ∀ k wf,
-      absLog (runOp p (.store first es seals) k wf).1.disk = view (runOp p (.store first es seals) k wf).1 ∨
-      ((runOp p (.store first es seals) k wf).2 = false ∧
-        absLog (runOp p (.store first es seals) k wf).1.disk = specApply (view p) (.store first es seals)) ∨
-      absLog (runOp p (.store first es seals) k wf).1.disk =
-        (if (runOp p (.store first es seals) k wf).2 then specApply (absLog p.disk) (.store first es seals)
+    (hs : ∀ p, FInv p → ∀ first es seals, OkV (view p) (.store first es seals) → ∀ pl,
+      absLog (runOp p (.store first es seals) pl).1.disk = view (runOp p (.store first es seals) pl).1 ∨
+      ((runOp p (.store first es seals) pl).2 = false ∧
+        absLog (runOp p (.store first es seals) pl).1.disk = specApply (view p) (.store first es seals)) ∨
+      absLog (runOp p (.store first es seals) pl).1.disk =
+        (if (runOp p (.store first es seals) pl).2 then specApply (absLog p.disk) (.store first es seals)
          else absLog p.disk))
-    (ht : ∀ p, FInv p → ∀ newMax, OkV (view p) (.delTail newMax) → ∀ k wf,
-      absLog (runOp p (.delTail newMax) k wf).1.disk = view (runOp p (.delTail newMax) k wf).1 ∨
-      ((runOp p (.delTail newMax) k wf).2 = false ∧
-        absLog (runOp p (.delTail newMax) k wf).1.disk = specApply (view p) (.delTail newMax)) ∨
-      absLog (runOp p (.delTail newMax) k wf).1.disk =
-        (if (runOp p (.delTail newMax) k wf).2 then specApply (absLog p.disk) (.delTail newMax) else absLog p.disk)) :
+    (ht : ∀ p, FInv p → ∀ newMax, OkV (view p) (.delTail newMax) → ∀ pl,
+      absLog (runOp p (.delTail newMax) pl).1.disk = view (runOp p (.delTail newMax) pl).1 ∨
+      ((runOp p (.delTail newMax) pl).2 = false ∧
+        absLog (runOp p (.delTail newMax) pl).1.disk = specApply (view p) (.delTail newMax)) ∨
+      absLog (runOp p (.delTail newMax) pl).1.disk =
+        (if (runOp p (.delTail newMax) pl).2 then specApply (absLog p.disk) (.delTail newMax) else absLog p.disk)) :
     call_disklog_stmt := by
-  intro p hi op hok k wf
+  intro p hi op hok pl
   cases op with
-  | store first es seals => exact hs p hi first es seals hok k wf
-  | delHead newMin => exact call_disklog_delHead p hi newMin hok k wf
-  | delTail newMax => exact ht p hi newMax hok k wf
-  | set key val => exact call_disklog_set p hi key val hok k wf
+  | store first es seals => exact hs p hi first es seals hok pl
+  | delHead newMin => exact call_disklog_delHead p hi newMin hok pl
+  | delTail newMax => exact ht p hi newMax hok pl
+  | set key val => exact call_disklog_set p hi key val hok pl
 
 end RaftWal.Fault.B
 
